@@ -1,6 +1,6 @@
 """C16 — safe_contextmanager / safe_async_contextmanager: exhaustive correspondence between the real decorators (driven through real
 `with` / `async with` statements, asyncio for the async variant) and the Lean model + try/finally spec."""
-import itertools, json
+import itertools, json, inspect
 
 RULE = ('exhaustive in both tiers: setup outcome (ok + 7 exception kinds incl. a StopIteration raised by user code) x yields reached '
         '{0,1,2} x cleanup outcome (ok + 7 kinds + "the body\'s own exception object" + "RuntimeError chained to the body\'s exception") '
@@ -8,15 +8,26 @@ RULE = ('exhaustive in both tiers: setup outcome (ok + 7 exception kinds incl. a
         'StopAsyncIteration, RuntimeError, CancelledError) x {sync, async} x {single, nested x2 (enumerated manager inside / outside, '
         'outer cleanup ok / failing), repeated x2 (enumerated manager first / second)}; decoration: every function kind (generator, '
         'async generator, plain, coroutine; def/lambda/partial/method/builtin/class/callable instance) x both decorators; plus seeded '
-        'random programs of depth <= 4 and length <= 4.  Concrete exception classes per kind, return-vs-break and real event-loop '
-        'suspension in setup/cleanup are drawn from the rng.  non-trivial = something raised or left early')
+        'random programs of depth <= 4 and length <= 4 (managers drawn from a small pool, so that the same decorated manager is nested '
+        'in itself and reused).  Same manager nested in itself: depth 2 (enumerated manager inside / outside) and depth 3.  '
+        'Argument forwarding: 9 generator signatures (parameters named f, func, fn, args, kwargs, self, gen, iterator, wrapped, cls, '
+        'positional-only / keyword-only / defaulted parameters, *rest / **kwargs collectors) x call tuples (positional, by keyword, '
+        'mixed, collector receiving such names, near misses that do not bind) x {sync, async}; the generator reports whether it '
+        'received exactly what a direct call of the undecorated generator function binds.  Overlapping uses of ONE decorated manager '
+        '(histories): every interleaving of the enter / exit events of 2 uses x cleanup outcomes x block outcomes, every interleaving '
+        'of 3 uses, seeded random histories of <= 5 live uses; sync uses are generators suspended inside a real `with`, async uses '
+        'are asyncio tasks inside a real `async with`, stepped deterministically through events.  Concrete exception classes per kind, '
+        'return-vs-break and real event-loop suspension in setup/cleanup are drawn from the rng.  non-trivial = something raised or left early')
 EXHAUSTIVE = {'quick': True, 'thorough': True}
-ASSUMPTIONS = ['async variant: every await is an atomic step of the model; what other tasks do between two awaits (event-loop interleaving) is not modelled',
+ASSUMPTIONS = ['async variant: every await is an atomic step of the model; other tasks run only while a use is suspended inside its block (the history machine), '
+               'not between two awaits of one __aenter__ / __aexit__',
                'the user generator is scripted: setup; yield v; cleanup; [yield v; extra]* with a chosen outcome per section',
                'claims (P_X) only for generators in the documented one-yield form; zero-/multi-yield generators are modelled and compared only']
 TRUSTED = ['CPython 3.12 contextlib._GeneratorContextManager / _AsyncGeneratorContextManager, PEP 479 and the with statement are transcribed in '
            'Model/CtxMgr.lean and exercised exhaustively against the interpreter, not verified',
-           'inspect.isgeneratorfunction / isasyncgenfunction classify the function kinds; the harness labels each test function with the same predicates']
+           'inspect.isgeneratorfunction / isasyncgenfunction classify the function kinds; the harness labels each test function with the same predicates',
+           'Python argument binding of the user generator function is environment: whether a tuple binds (`fits`) is computed by calling a plain function with the same parameter list '
+           'and cross-checked against the real call of the generator function; "received unchanged" = the parameters of the generator hold what a direct call f(*pos, **kw) binds (identity-wise, order of **kwargs included)']
 
 FINDING_QUIRK = 'C16-cleanup-runtimeerror-chained-to-body-stop'
 
@@ -33,6 +44,77 @@ KIND_CLASSES = {
 VAL0 = 40           # value object of manager `tag` has id VAL0 + tag
 ARGS = 5            # id of the caller's argument objects
 CONV = 500          # ids >= CONV: objects created by the interpreter (PEP 479 RuntimeError for a user-level Stop*Iteration: CONV + its id)
+
+
+# interned keyword / parameter names (the Lean side only sees the numbers); 'k' must stay 1 (older corpus files)
+NAMES = ['_', 'k', 'a', 'b', 'c', 'd', 'f', 'func', 'fn', 'args', 'kwargs', 'self', 'gen', 'iterator', 'wrapped', 'cls', 'mode', 'x', 'value', 'wrapper', 'it']
+NAME_ID = {n: i for i, n in enumerate(NAMES)}
+# signatures of the user generator functions
+SIGS = {
+    'a_k': 'a, k=None',
+    'none': '',
+    'f_mode': 'f, mode=None, *rest, **options',
+    'internals': 'f, func, fn=None, args=None, kwargs=None',
+    'internals_kwonly': '*, f, func=None, fn=None, args=None, kwargs=None, self=None, gen=None, iterator=None, wrapped=None, cls=None',
+    'self_cls': 'self, cls, gen=None, iterator=None, wrapped=None, it=None, wrapper=None',
+    'collector': '**kw',
+    'posonly': 'a, f=None, /, b=None, *, d=None, **kw',
+    'star': '*args, **kwargs',
+}
+# call tuples per signature: (number of positional arguments, keyword names in the caller's order); near misses included
+CALLS = {
+    'a_k': [(1, ['k']), (2, []), (0, ['a', 'k']), (0, ['k', 'a']), (1, []), (0, []), (3, []), (1, ['a']), (1, ['f']), (0, ['a', 'x'])],
+    'none': [(0, []), (1, []), (0, ['f']), (0, ['args'])],
+    'f_mode': [(1, []), (4, ['x']), (1, ['mode']), (0, ['f']), (0, ['mode', 'f']), (0, ['mode', 'f', 'args', 'kwargs', 'self']), (2, ['func', 'fn', 'gen']),
+               (0, ['f', 'iterator', 'wrapped', 'cls']), (1, ['f']), (0, ['mode']), (0, [])],
+    'internals': [(0, ['f', 'func']), (0, ['func', 'f', 'fn', 'args', 'kwargs']), (2, ['args', 'kwargs']), (1, ['func', 'kwargs']), (5, []),
+                  (0, ['kwargs', 'args', 'fn', 'func', 'f']), (1, ['f']), (0, ['f']), (6, []), (2, ['self'])],
+    'internals_kwonly': [(0, ['f']), (0, ['f', 'func', 'fn', 'args', 'kwargs', 'self', 'gen', 'iterator', 'wrapped', 'cls']), (0, ['cls', 'self', 'f']),
+                         (0, ['iterator', 'gen', 'f', 'wrapped']), (0, ['args', 'f', 'kwargs']), (1, []), (0, ['func']), (0, ['f', 'x'])],
+    'self_cls': [(2, []), (0, ['self', 'cls']), (0, ['cls', 'self', 'gen', 'iterator', 'wrapped']), (1, ['cls', 'it', 'wrapper']), (2, ['iterator']),
+                 (0, ['self']), (1, ['self', 'cls']), (8, [])],
+    'collector': [(0, []), (0, ['f']), (0, ['f', 'func', 'fn', 'args', 'kwargs', 'self', 'gen', 'iterator', 'wrapped', 'cls']), (0, ['kwargs', 'args']),
+                  (0, ['self', 'cls', 'it', 'wrapper']), (1, []), (1, ['f'])],
+    'posonly': [(1, []), (2, []), (3, ['d']), (1, ['f', 'a']), (1, ['a', 'b', 'd', 'f', 'self']), (2, ['f', 'args', 'kwargs']), (0, ['a']), (4, []), (1, ['b', 'x']), (2, ['f'])],
+    'star': [(0, []), (3, []), (0, ['f', 'args', 'kwargs']), (2, ['self', 'func', 'gen', 'cls']), (5, ['iterator', 'wrapped', 'fn', 'f'])],
+}
+POS0, KW0 = 60, 80     # ids of the caller's positional / keyword argument objects
+_FITS = {}
+
+
+_PROBES = {}
+
+
+def probe(sig):
+    """a plain function with the signature that returns what Python binds to its parameters (the binding of the interpreter itself;
+    inspect.Signature.bind of 3.12 rejects a keyword that names a positional-only parameter even when **kwargs takes it)"""
+    if sig not in _PROBES:
+        ns = {}
+        exec(f'def probe({SIGS[sig]}):\n    return dict(locals())\n', ns)
+        _PROBES[sig] = ns['probe']
+    return _PROBES[sig]
+
+
+def fits(sig, npos, kws):
+    key = (sig, npos, tuple(kws))
+    if key not in _FITS:
+        try:
+            probe(sig)(*range(npos), **{k: 0 for k in kws})
+            _FITS[key] = True
+        except TypeError:
+            _FITS[key] = False
+    return _FITS[key]
+
+
+def mk_args(sig, npos, kws):
+    return {'pos': [POS0 + i for i in range(npos)], 'kw': [[NAME_ID[k], KW0 + i] for i, k in enumerate(kws)], 'fits': fits(sig, npos, kws)}
+
+
+def norm_args(a):
+    """older corpus / replay files: a bare number n is the call cm(<n>, k=<n+1>)"""
+    if isinstance(a, int):
+        return {'pos': [a], 'kw': [[1, a + 1]], 'fits': True}
+    return a
 
 
 def converted(mode, kind):
@@ -52,10 +134,15 @@ def gen_exc(rng, mode, kind, oid):
     return mk_exc(rng, kind, oid)
 
 
-def mk_gen(rng, mode, tag, setup, yields, cleanup, base):
-    """cleanup: None | kind | ('same', E) | ('chained', E)"""
+def mk_gen(rng, mode, tag, setup, yields, cleanup, base, mgr=None, sig=None):
+    """cleanup: None | kind | ('same', E) | ('chained', E);  mgr: which decorated manager object this use calls (default: one of
+    its own, decorated for this use);  sig: signature of that manager's generator function"""
     g = {'tag': tag, 'yields': yields, 'value': VAL0 + tag, 'suspend': rng.random() < 0.5,
          'setup': gen_exc(rng, mode, setup, base + 1)}
+    if mgr is not None:
+        g['mgr'] = mgr
+    if sig is not None:
+        g['sig'] = sig
     if isinstance(cleanup, tuple):
         how, be = cleanup
         g['cleanup'] = list(be) if how == 'same' else ['runtimeError', base + 2, be[1], rng.choice(KIND_CLASSES['runtimeError'])]
@@ -64,8 +151,8 @@ def mk_gen(rng, mode, tag, setup, yields, cleanup, base):
     return g
 
 
-def ok_gen(rng, mode, tag, cleanup=None, base=0):
-    return mk_gen(rng, mode, tag, None, 1, cleanup, base)
+def ok_gen(rng, mode, tag, cleanup=None, base=0, mgr=None):
+    return mk_gen(rng, mode, tag, None, 1, cleanup, base, mgr)
 
 
 def leaf(rng, n, body, oid):
@@ -80,7 +167,9 @@ def leaf(rng, n, body, oid):
 BODIES = ['normal', 'ret', 'brk'] + KINDS
 SETUPS = [None] + KINDS
 CLEANUPS = [None] + KINDS + ['same', 'chained']
-STRUCTS = ['single', 'nest-in', 'nest-in-outerfails', 'nest-out', 'rep-first', 'rep-second']
+STRUCTS = ['single', 'nest-in', 'nest-in-outerfails', 'nest-out', 'rep-first', 'rep-second',
+           # the SAME decorated manager object used twice: nested in itself (enumerated use inside / outside), one after the other
+           'self-in', 'self-in-outerfails', 'self-out', 'self-rep-first', 'self-rep-second']
 
 
 def build(rng, mode, struct, setup, yields, cleanup, body):
@@ -89,19 +178,21 @@ def build(rng, mode, struct, setup, yields, cleanup, body):
         if be is None:
             return None
         cleanup = (cleanup, be)
-    g = mk_gen(rng, mode, 1, setup, yields, cleanup, 10)
-    if struct == 'single':
+    mgr = 'M' if struct.startswith('self-') else None        # both uses call the same decorated manager object
+    shape = struct[5:] if mgr else struct
+    g = mk_gen(rng, mode, 1, setup, yields, cleanup, 10, mgr)
+    if shape == 'single':
         p = ['with', g, ARGS, lf]
-    elif struct == 'nest-in':
-        p = ['with', ok_gen(rng, mode, 2), ARGS, ['with', g, ARGS, lf]]
-    elif struct == 'nest-in-outerfails':
-        p = ['with', ok_gen(rng, mode, 2, 'baseExc', 20), ARGS, ['with', g, ARGS, lf]]
-    elif struct == 'nest-out':
-        p = ['with', g, ARGS, ['with', ok_gen(rng, mode, 2), ARGS, lf]]
-    elif struct == 'rep-first':
-        p = ['seq', ['with', g, ARGS, lf], ['with', ok_gen(rng, mode, 2), ARGS, ['body', 1, ['normal']]]]
+    elif shape in ('nest-in', 'in'):
+        p = ['with', ok_gen(rng, mode, 2, mgr=mgr), ARGS, ['with', g, ARGS, lf]]
+    elif shape in ('nest-in-outerfails', 'in-outerfails'):
+        p = ['with', ok_gen(rng, mode, 2, 'baseExc', 20, mgr=mgr), ARGS, ['with', g, ARGS, lf]]
+    elif shape in ('nest-out', 'out'):
+        p = ['with', g, ARGS, ['with', ok_gen(rng, mode, 2, mgr=mgr), ARGS, lf]]
+    elif shape == 'rep-first':
+        p = ['seq', ['with', g, ARGS, lf], ['with', ok_gen(rng, mode, 2, mgr=mgr), ARGS, ['body', 1, ['normal']]]]
     else:
-        p = ['seq', ['with', ok_gen(rng, mode, 2), ARGS, ['body', 1, ['normal']]], ['with', g, ARGS, lf]]
+        p = ['seq', ['with', ok_gen(rng, mode, 2, mgr=mgr), ARGS, ['body', 1, ['normal']]], ['with', g, ARGS, lf]]
     branch = ('setupfail' if setup else 'y0' if yields == 0 else 'y2' if yields == 2 else
               ('quirk?' if isinstance(cleanup, tuple) and cleanup[0] == 'chained' else 'same' if isinstance(cleanup, tuple) else
                ('both' if cleanup and body in KINDS else 'cleanupexc' if cleanup else
@@ -123,8 +214,9 @@ def rand_prog(rng, mode, depth, counter):
     if r < 0.45:
         return ['seq', rand_prog(rng, mode, depth - 1, counter), rand_prog(rng, mode, depth - 1, counter)]
     t = fresh()
+    mgr = rng.choice([None, 'A', 'A', 'B'])          # the same decorated manager object nested in itself / reused
     g = mk_gen(rng, mode, t, rng.choice([None] * 8 + KINDS), rng.choice([1] * 10 + [0, 2]),
-               rng.choice([None] * 5 + KINDS), 200 + 3 * t)
+               rng.choice([None] * 5 + KINDS), 200 + 3 * t, mgr)
     return ['with', g, ARGS, rand_prog(rng, mode, depth - 1, counter)]
 
 
@@ -148,6 +240,154 @@ def deco_cases():
     return out
 
 
+def args_cases(rng, tier):
+    """argument forwarding: every signature x every call tuple x {sync, async}; the block ends normally or raises"""
+    out = []
+    for mode in ('sync', 'async'):
+        for sig, calls in CALLS.items():
+            for npos, kws in calls:
+                a = mk_args(sig, npos, kws)
+                for body in ('normal', 'exception'):
+                    lf, _ = leaf(rng, 0, body, 7)
+                    g = mk_gen(rng, mode, 1, None, 1, None, 10, sig=sig)
+                    out.append({'m': 'ctxmgr', 'c': {'kind': 'prog', 'mode': mode, 'prog': ['with', g, a, lf]},
+                                'x': {'tag': f"{mode}/args/{sig}/{'binds' if a['fits'] else 'nofit'}", 'trivial': False}})
+                # the same manager object called twice with the tuple (nested in itself), and a failing setup that received it
+                g1 = mk_gen(rng, mode, 1, None, 1, None, 10, 'M', sig)
+                g2 = mk_gen(rng, mode, 2, rng.choice([None, 'exception']), 1, None, 20, 'M', sig)
+                out.append({'m': 'ctxmgr', 'c': {'kind': 'prog', 'mode': mode, 'prog': ['with', g1, a, ['with', g2, a, ['body', 0, ['normal']]]]},
+                            'x': {'tag': f"{mode}/args-selfnest/{sig}/{'binds' if a['fits'] else 'nofit'}", 'trivial': False}})
+    return out
+
+
+def rand_args(rng, sig):
+    npos, kws = rng.choice(CALLS[sig])
+    return mk_args(sig, npos, kws)
+
+
+def selfnest3_cases(rng, tier):
+    """the same manager nested in itself three deep: block outcome x cleanup outcome of each level (quick: one level at a time)"""
+    out = []
+    cl = [None, 'exception', 'baseExc', 'stopIteration', 'runtimeError']
+    for mode in ('sync', 'async'):
+        combos = itertools.product(cl, cl, cl) if tier == 'thorough' else \
+            [c for c in itertools.product(cl, cl, cl) if sum(x is not None for x in c) <= 1] + [('exception', 'baseExc', 'runtimeError')]
+        for c1, c2, c3 in combos:
+            for body in BODIES:
+                lf, _ = leaf(rng, 0, body, 7)
+                p = ['with', mk_gen(rng, mode, 1, None, 1, c1, 10, 'M'), ARGS,
+                     ['with', mk_gen(rng, mode, 2, None, 1, c2, 20, 'M'), ARGS,
+                      ['with', mk_gen(rng, mode, 3, None, 1, c3, 30, 'M'), ARGS, lf]]]
+                out.append({'m': 'ctxmgr', 'c': {'kind': 'prog', 'mode': mode, 'prog': p}, 'x': {'tag': f'{mode}/self-nest3', 'trivial': False}})
+        for setup in KINDS:          # the innermost / the middle use fails to enter
+            for where in (2, 3):
+                p = ['with', mk_gen(rng, mode, 1, None, 1, None, 10, 'M'), ARGS,
+                     ['with', mk_gen(rng, mode, 2, setup if where == 2 else None, 1, None, 20, 'M'), ARGS,
+                      ['with', mk_gen(rng, mode, 3, setup if where == 3 else None, 1, None, 30, 'M'), ARGS, ['body', 0, ['normal']]]]]
+                out.append({'m': 'ctxmgr', 'c': {'kind': 'prog', 'mode': mode, 'prog': p}, 'x': {'tag': f'{mode}/self-nest3/setupfail', 'trivial': False}})
+    return out
+
+
+# ---- histories: enter / exit events over several live uses of ONE decorated manager
+
+def interleavings(k):
+    """all orders of E0..E(k-1), X0..X(k-1) with E0 < E1 < … (uses are numbered by their enter) and Ei < Xi"""
+    out = []
+
+    def go(seq, entered, exited):
+        if len(seq) == 2 * k:
+            out.append(list(seq))
+            return
+        if entered < k:
+            go(seq + [('E', entered)], entered + 1, exited)
+        for i in range(entered):
+            if i not in exited:
+                go(seq + [('X', i)], entered, exited | {i})
+    go([], 0, frozenset())
+    return out
+
+
+def enters_ok(g, a):
+    return g['setup'] is None and g['yields'] >= 1 and a['fits']
+
+
+def fin_of(rng, body, oid):
+    """block outcome of an exit operation (same wire form as a leaf body's outcome)"""
+    return leaf(rng, 0, body, oid)[0][2]
+
+
+def mk_hist(rng, mode, order, gens, argss, bodies, tag):
+    """order: [('E', i) | ('X', i)]; a use whose enter fails is never exited"""
+    ops = []
+    for kind, i in order:
+        if kind == 'E':
+            ops.append(['enter', gens[i], argss[i]])
+        elif enters_ok(gens[i], argss[i]):
+            ops.append(['exit', i, bodies[i]])
+    return {'m': 'ctxmgr', 'c': {'kind': 'hist', 'mode': mode, 'ops': ops}, 'x': {'tag': tag, 'trivial': False}}
+
+
+def hist_gen(rng, mode, i, setup, yields, cleanup, body, sig=None):
+    """use i: generator behaviour + block outcome; cleanup may be 'same' / 'chained' (relative to the block's own exception)"""
+    base = 10 + 10 * i
+    fin = fin_of(rng, body, base + 3)
+    be = fin[1] if fin[0] == 'raises' else None
+    if cleanup in ('same', 'chained'):
+        cleanup = (cleanup, be) if be is not None else None
+    return mk_gen(rng, mode, i + 1, setup, yields, cleanup, base, 'M', sig), fin
+
+
+def hist_cases(rng, tier):
+    out = []
+    cl2 = [None, 'exception', 'baseExc', 'stopIteration'] if tier == 'thorough' else [None, 'exception', 'baseExc']
+    bd2 = BODIES if tier == 'thorough' else ['normal', 'ret', 'exception', 'baseExc', 'stopIteration', 'generatorExit', 'cancelled']
+    for mode in ('sync', 'async'):
+        # two uses: every interleaving x cleanup outcomes x block outcomes
+        for order in interleavings(2):
+            name = ''.join(f'{k}{i}' for k, i in order)
+            for c0, c1, b0, b1 in itertools.product(cl2, cl2, bd2, bd2):
+                g0, f0 = hist_gen(rng, mode, 0, None, 1, c0, b0)
+                g1, f1 = hist_gen(rng, mode, 1, None, 1, c1, b1)
+                out.append(mk_hist(rng, mode, order, [g0, g1], [ARGS_D, ARGS_D], [f0, f1], f'{mode}/hist2/{name}'))
+            # setup outcomes / undocumented forms / quirk candidates of one use while the other is live
+            for who in (0, 1):
+                for setup, yields, cleanup, body in ([(k, 1, None, 'normal') for k in KINDS] + [(None, 0, None, 'normal'), (None, 2, None, 'normal'), (None, 2, 'exception', 'exception')]
+                                                     + [(None, 1, c, b) for c in ('same', 'chained') for b in KINDS]):
+                    ga, fa = hist_gen(rng, mode, who, setup, yields, cleanup, body)
+                    gb, fb = hist_gen(rng, mode, 1 - who, None, 1, None, rng.choice(bd2))
+                    gens, fins = ([ga, gb], [fa, fb]) if who == 0 else ([gb, ga], [fb, fa])
+                    out.append(mk_hist(rng, mode, order, gens, [ARGS_D, ARGS_D], fins, f'{mode}/hist2-special/{name}'))
+        # three uses: every interleaving, outcomes drawn
+        for order in interleavings(3):
+            for _ in range(2 if tier == 'quick' else 12):
+                gf = [hist_gen(rng, mode, i, None, 1, rng.choice([None, None, 'exception', 'baseExc', 'runtimeError']), rng.choice(BODIES)) for i in range(3)]
+                out.append(mk_hist(rng, mode, order, [g for g, _ in gf], [ARGS_D] * 3, [f for _, f in gf], f'{mode}/hist3'))
+    out += rand_hists(rng, 400 if tier == 'quick' else 8000, 'hist-random')
+    return out
+
+
+def rand_hists(rng, n, label):
+    out = []
+    for _ in range(n):
+        mode = rng.choice(['sync', 'async'])
+        k = rng.randint(2, 5)
+        sig = rng.choice(list(SIGS))
+        # a random valid interleaving
+        order, entered, live = [], 0, []
+        while entered < k or live:
+            if entered < k and (not live or rng.random() < 0.55):
+                order.append(('E', entered)); live.append(entered); entered += 1
+            else:
+                order.append(('X', live.pop(rng.randrange(len(live)))))
+        gf = [hist_gen(rng, mode, i, rng.choice([None] * 9 + KINDS), rng.choice([1] * 12 + [0, 2]),
+                       rng.choice([None] * 5 + KINDS + ['same', 'chained']), rng.choice(['normal'] * 3 + ['ret', 'brk'] + KINDS), sig) for i in range(k)]
+        out.append(mk_hist(rng, mode, order, [g for g, _ in gf], [rand_args(rng, sig) for _ in range(k)], [f for _, f in gf], f'{mode}/{label}'))
+    return out
+
+
+ARGS_D = {'pos': [ARGS], 'kw': [[1, ARGS + 1]], 'fits': True}     # cm(<5>, k=<6>) on the default signature `a, k=None`
+
+
 def cases(rng, tier):
     out = deco_cases()
     for mode in ('sync', 'async'):
@@ -156,13 +396,16 @@ def cases(rng, tier):
                 c = build(rng, mode, struct, setup, yields, cleanup, body)
                 if c is not None:
                     out.append(c)
+    out += args_cases(rng, tier) + selfnest3_cases(rng, tier) + hist_cases(rng, tier)
     if tier == 'thorough':
         # nested, both managers enumerated: outer over everything, inner over every cleanup outcome
         for mode in ('sync', 'async'):
             for setup, yields, cleanup, icleanup, body in itertools.product(SETUPS, (0, 1, 2), [None] + KINDS, [None] + KINDS, BODIES):
                 lf, _ = leaf(rng, 0, body, 7)
-                p = ['with', mk_gen(rng, mode, 1, setup, yields, cleanup, 10), ARGS, ['with', ok_gen(rng, mode, 2, icleanup, 20), ARGS, lf]]
-                out.append({'m': 'ctxmgr', 'c': {'kind': 'prog', 'mode': mode, 'prog': p}, 'x': {'tag': f'{mode}/nest-square', 'trivial': False}})
+                for mgr in (None, 'M'):
+                    p = ['with', mk_gen(rng, mode, 1, setup, yields, cleanup, 10, mgr), ARGS, ['with', ok_gen(rng, mode, 2, icleanup, 20, mgr), ARGS, lf]]
+                    out.append({'m': 'ctxmgr', 'c': {'kind': 'prog', 'mode': mode, 'prog': p},
+                                'x': {'tag': f"{mode}/{'self-' if mgr else ''}nest-square", 'trivial': False}})
     for _ in range(1500 if tier == 'quick' else 30000):
         mode = rng.choice(['sync', 'async'])
         p = rand_prog(rng, mode, rng.randint(1, 4), [0])
@@ -172,11 +415,11 @@ def cases(rng, tier):
 
 def search(rng, tier, near):
     out = []
-    for _ in range(6000):
+    for _ in range(5000):
         mode = rng.choice(['sync', 'async'])
         out.append({'m': 'ctxmgr', 'c': {'kind': 'prog', 'mode': mode, 'prog': rand_prog(rng, mode, rng.randint(1, 3), [0])},
                     'x': {'tag': f'{mode}/search', 'trivial': False}})
-    return out
+    return out + rand_hists(rng, 1500, 'hist-search')
 
 
 # ------------------------------------------------------------------------------------------------ implementation side
@@ -204,18 +447,75 @@ def kind_of(e):
     return 'baseExc'
 
 
-class Env:
-    """one program run: object registry (id <-> object), journal"""
+_TEMPLATES = {}
 
-    def __init__(self, prog, classes):
+
+def gen_factory(sig, mode):
+    """the user generator function with the given parameter list, compiled from source once per (signature, mode).  Its own names are
+    spelled so that no parameter name can clash with them; everything it does is delegated to the environment `_E_`."""
+    key = (sig, mode)
+    if key not in _TEMPLATES:
+        if mode == 'sync':
+            src = (f'def _make_(_E_, _K_):\n'
+                   f'    def user_gen({SIGS[sig]}):\n'
+                   f'        _U_ = _E_.start(_K_, dict(locals()))\n'
+                   f'        _E_.setup(_U_)\n'
+                   f'        for _i_ in range(_U_.n):\n'
+                   f'            yield _U_.v\n'
+                   f'            _E_.after(_U_, _i_)\n'
+                   f'    return user_gen\n')
+        else:
+            src = (f'def _make_(_E_, _K_):\n'
+                   f'    async def user_gen({SIGS[sig]}):\n'
+                   f'        _U_ = _E_.start(_K_, dict(locals()))\n'
+                   f'        if _U_.susp:\n'
+                   f'            await _E_.sleep0()\n'
+                   f'        _E_.setup(_U_)\n'
+                   f'        for _i_ in range(_U_.n):\n'
+                   f'            yield _U_.v\n'
+                   f'            if _U_.susp:\n'
+                   f'                await _E_.sleep0()\n'
+                   f'            _E_.after(_U_, _i_)\n'
+                   f'    return user_gen\n')
+        ns = {}
+        exec(compile(src, f'<c16 user generator {sig}/{mode}>', 'exec'), ns)
+        _TEMPLATES[key] = ns['_make_']
+    return _TEMPLATES[key]
+
+
+class Use:
+    """one use of a manager: what its generator does (read by the generator when it starts)"""
+
+    def __init__(self, env, g, a):
+        self.tag, self.se, self.ce, self.n, self.susp = g['tag'], g['setup'], g['cleanup'], g['yields'], g.get('suspend')
+        self.v = env.val(g['tag'])
+        self.a = a
+        self.recv = None
+
+
+class Env:
+    """one program run: object registry (id <-> object), journal, the decorated managers"""
+
+    def __init__(self, c, classes, deco):
         self.J = []
         self.objs = {}
         self.raise_obj = {}      # spec id -> object the user code raises (differs from objs for user-level Stop*Iteration)
-        self.A = object()
-        self.K = object()
         self.vals = {}
+        self.argobjs = {}
+        self.mgrs = {}
+        self.raws = {}
+        self.sigs = {}
+        self.mode, self.deco = c['mode'], deco
+        self.pending = None
         specs = []
-        self._collect(prog, specs)
+        if c['kind'] == 'hist':
+            for op in c['ops']:
+                if op[0] == 'enter':
+                    specs += [op[1][k] for k in ('setup', 'cleanup') if op[1][k] is not None]
+                elif op[2][0] == 'raises':
+                    specs.append(op[2][1])
+        else:
+            self._collect(c['prog'], specs)
         for e in sorted(specs, key=lambda e: (e[2] is not None, e[1])):
             kind, oid, cause, cls = e
             if cls.startswith('user:'):
@@ -254,48 +554,94 @@ class Env:
     def val(self, tag):
         return self.vals.setdefault(tag, object())
 
+    def argobj(self, i):
+        return self.argobjs.setdefault(i, object())
+
+    def argid(self, o):
+        for i, obj in self.argobjs.items():
+            if obj is o:
+                return i
+        return None if o is None else -1
+
+    # ---- the decorated managers
+    def manager(self, g):
+        """the decorated manager object of this use: `mgr` names it (uses with the same `mgr` call the SAME object, decorated once);
+        without `mgr` the use gets a manager of its own"""
+        key = g.get('mgr') or ('own', g['tag'])
+        if key not in self.mgrs:
+            raw = gen_factory(g.get('sig', 'a_k'), self.mode)(self, key)
+            self.raws[key] = raw
+            self.sigs[key] = g.get('sig', 'a_k')
+            self.mgrs[key] = self.deco(raw)
+        return key, self.mgrs[key]
+
+    def prepare(self, g, a):
+        """-> (manager, positional objects, keyword objects); the next generator that starts belongs to this use"""
+        a = norm_args(a)
+        key, cm = self.manager(g)
+        pos = [self.argobj(i) for i in a['pos']]
+        kw = {NAMES[n]: self.argobj(i) for n, i in a['kw']}
+        # the harness label `fits` must agree with the real call of the undecorated generator function
+        try:
+            it = self.raws[key](*pos, **kw)
+            real = True
+            if hasattr(it, 'close'):
+                it.close()
+        except TypeError:
+            real = False
+        if real != a['fits']:
+            raise RuntimeError(f'harness label fits={a["fits"]} of {a} disagrees with the call of the generator function ({g.get("sig", "a_k")})')
+        self.pending = Use(self, g, a)
+        return cm, pos, kw
+
+    # ---- called by the user generators
+    def start(self, key, received):
+        u, self.pending = self.pending, None
+        received = {k: v for k, v in received.items() if k not in ('_E_', '_K_')}      # closure cells show up in locals()
+        if u is None:
+            raise RuntimeError('a user generator started that no use of the harness asked for')
+        a = u.a
+        pos = [self.argobj(i) for i in a['pos']]
+        kw = {NAMES[n]: self.argobj(i) for n, i in a['kw']}
+        want = probe(self.sigs[key])(*pos, **kw)     # what a direct call of a function with this signature binds
+
+        def same(x, y):
+            if isinstance(x, tuple) and isinstance(y, tuple):
+                return len(x) == len(y) and all(p is q for p, q in zip(x, y))
+            if isinstance(x, dict) and isinstance(y, dict):
+                return list(x) == list(y) and all(x[k] is y[k] for k in x)
+            return x is y
+        if list(want) == list(received) and all(same(want[k], received[k]) for k in want):
+            u.recv = [list(a['pos']), [list(p) for p in a['kw']]]
+        else:
+            def ids(x):
+                if isinstance(x, tuple):
+                    return [self.argid(p) for p in x]
+                if isinstance(x, dict):
+                    return [[k, self.argid(p)] for k, p in x.items()]
+                return self.argid(x)
+            u.recv = ['got', [[k, ids(v)] for k, v in received.items()]]
+        return u
+
+    def setup(self, u):
+        self.J.append(['setup', u.tag] + u.recv)
+        if u.se is not None:
+            raise self.raise_obj[u.se[1]]
+
+    def after(self, u, i):
+        self.J.append(['cleanup', u.tag] if i == 0 else ['extra', u.tag])
+        if i == 0 and u.ce is not None:
+            raise self.raise_obj[u.ce[1]]
+
+    def sleep0(self):
+        import asyncio
+        return asyncio.sleep(0)
+
 
 NORMAL, LEFT = 'normal', 'left'
 
 
-def make_sync(env, g, deco):
-    tag, se, ce, n = g['tag'], g['setup'], g['cleanup'], g['yields']
-    v = env.val(tag)
-
-    def user_gen(a, k=None):
-        env.J.append(['setup', tag, ARGS if (a is env.A and k is env.K) else 0])
-        if se is not None:
-            raise env.raise_obj[se[1]]
-        for i in range(n):
-            yield v
-            env.J.append(['cleanup', tag] if i == 0 else ['extra', tag])
-            if i == 0 and ce is not None:
-                raise env.raise_obj[ce[1]]
-    return deco(user_gen)
-
-
-def make_async(env, g, deco):
-    import asyncio
-    tag, se, ce, n, susp = g['tag'], g['setup'], g['cleanup'], g['yields'], g.get('suspend')
-    v = env.val(tag)
-
-    async def user_gen(a, k=None):
-        if susp:
-            await asyncio.sleep(0)
-        env.J.append(['setup', tag, ARGS if (a is env.A and k is env.K) else 0])
-        if se is not None:
-            raise env.raise_obj[se[1]]
-        for i in range(n):
-            yield v
-            if susp:
-                await asyncio.sleep(0)
-            env.J.append(['cleanup', tag] if i == 0 else ['extra', tag])
-            if i == 0 and ce is not None:
-                raise env.raise_obj[ce[1]]
-    return deco(user_gen)
-
-
-def ex_sync(env, p, deco):
+def ex_sync(env, p):
     """interpreter: the control flow below is real Python control flow through real `with` statements"""
     if p[0] == 'body':
         env.J.append(['body', p[1]])
@@ -304,16 +650,16 @@ def ex_sync(env, p, deco):
             raise env.raise_obj[b[1][1]]
         return LEFT + ':' + b[1] if b[0] == 'early' else NORMAL
     if p[0] == 'seq':
-        r = ex_sync(env, p[1], deco)
+        r = ex_sync(env, p[1])
         if r != NORMAL:
             return r
-        return ex_sync(env, p[2], deco)
-    cm = make_sync(env, p[1], deco)
+        return ex_sync(env, p[2])
+    cm, pos, kw = env.prepare(p[1], p[2])
     r = None
     for _ in (0,):
-        with cm(env.A, k=env.K) as v:
+        with cm(*pos, **kw) as v:
             env.J.append(['bind', p[1]['tag'], VAL0 + p[1]['tag'] if v is env.val(p[1]['tag']) else -1])
-            r = ex_sync(env, p[3], deco)
+            r = ex_sync(env, p[3])
             if r == LEFT + ':ret':
                 return r                 # a real `return` out of the with block
             if r == LEFT + ':brk':
@@ -321,7 +667,7 @@ def ex_sync(env, p, deco):
     return NORMAL if r is None else r    # r is None: the block raised and the manager swallowed the exception
 
 
-async def ex_async(env, p, deco):
+async def ex_async(env, p):
     """same, but an exception travels between interpreter frames as a value `('exc', e)` and is re-raised (same object) inside the
     enclosing `async with` block: a StopIteration cannot cross a coroutine frame boundary unchanged, and the `async with` under
     test must see the object itself"""
@@ -332,17 +678,17 @@ async def ex_async(env, p, deco):
             return ('exc', env.raise_obj[b[1][1]])
         return LEFT + ':' + b[1] if b[0] == 'early' else NORMAL
     if p[0] == 'seq':
-        r = await ex_async(env, p[1], deco)
+        r = await ex_async(env, p[1])
         if r != NORMAL:
             return r
-        return await ex_async(env, p[2], deco)
-    cm = make_async(env, p[1], deco)
+        return await ex_async(env, p[2])
     r = None
     try:
+        cm, pos, kw = env.prepare(p[1], p[2])
         for _ in (0,):
-            async with cm(env.A, k=env.K) as v:
+            async with cm(*pos, **kw) as v:
                 env.J.append(['bind', p[1]['tag'], VAL0 + p[1]['tag'] if v is env.val(p[1]['tag']) else -1])
-                r = await ex_async(env, p[3], deco)
+                r = await ex_async(env, p[3])
                 if isinstance(r, tuple):
                     e, r = r[1], None
                     raise e
@@ -350,6 +696,10 @@ async def ex_async(env, p, deco):
                     return r
                 if r == LEFT + ':brk':
                     break
+    except RuntimeError as e:
+        if 'harness label' in str(e) or 'no use of the harness' in str(e):
+            raise
+        return ('exc', e)
     except BaseException as e:
         return ('exc', e)
     return NORMAL if r is None else r    # r is None: the block raised and the manager swallowed the exception
@@ -364,20 +714,170 @@ def finish(env, r, exc):
 
 
 def run_prog_sync(c, classes, deco):
-    env = Env(c['prog'], classes)
+    env = Env(c, classes, deco)
     try:
-        r = ex_sync(env, c['prog'], deco)
+        r = ex_sync(env, c['prog'])
+    except RuntimeError as e:
+        if 'harness label' in str(e) or 'no use of the harness' in str(e):
+            raise
+        return finish(env, None, e)
     except BaseException as e:
         return finish(env, None, e)
     return finish(env, r, None)
 
 
 async def run_prog_async(c, classes, deco):
-    env = Env(c['prog'], classes)
-    r = await ex_async(env, c['prog'], deco)
+    env = Env(c, classes, deco)
+    r = await ex_async(env, c['prog'])
     if isinstance(r, tuple):
         return finish(env, None, r[1])
     return finish(env, r, None)
+
+
+# ---- histories: every use runs in a task of its own that sits inside a real `with` / `async with` until the history lets its block end
+
+def block_end(env, fin):
+    """what the block of a use does when the history lets it end: ('raise', obj) | 'ret' | 'brk' | 'normal'"""
+    if fin[0] == 'raises':
+        return ('raise', env.raise_obj[fin[1][1]])
+    return fin[1] if fin[0] == 'early' else NORMAL
+
+
+def out_of(env, r):
+    if isinstance(r, tuple):
+        return env.canon(r[1])
+    return [NORMAL] if r == NORMAL else [LEFT]
+
+
+def use_task_sync(env, g, a, box):
+    """a generator: first step = enter the manager and stop inside the block; second step = let the block end as `box['fin']` says"""
+    r = None
+    try:
+        cm, pos, kw = env.prepare(g, a)
+        for _ in (0,):
+            with cm(*pos, **kw) as v:
+                env.J.append(['bind', g['tag'], VAL0 + g['tag'] if v is env.val(g['tag']) else -1])
+                box['inside'] = True
+                yield 'inside'
+                box['inside'] = False
+                b = block_end(env, box['fin'])
+                if isinstance(b, tuple):
+                    raise b[1]
+                if b == 'ret':
+                    return LEFT
+                if b == 'brk':
+                    r = LEFT
+                    break
+                r = NORMAL
+    except RuntimeError as e:
+        if 'harness label' in str(e) or 'no use of the harness' in str(e):
+            raise
+        return ('exc', e)
+    except BaseException as e:
+        return ('exc', e)
+    return NORMAL if r is None else r
+
+
+def run_hist_sync(c, classes, deco):
+    env = Env(c, classes, deco)
+    tasks, boxes, outs = [], [], []
+    for op in c['ops']:
+        mark = len(env.J)
+        if op[0] == 'enter':
+            box = {'inside': False}
+            t = use_task_sync(env, op[1], op[2], box)
+            tasks.append(t); boxes.append(box)
+            try:
+                next(t)
+                out = ['entered', env.J[-1][2]] if env.J[mark:] and env.J[-1][0] == 'bind' else ['entered', -1]
+            except StopIteration as stop:
+                out = out_of(env, stop.value)
+        else:
+            i = op[1]
+            if i >= len(tasks) or not boxes[i]['inside']:
+                out = ['ignored']
+            else:
+                boxes[i]['fin'] = op[2]
+                try:
+                    next(tasks[i])
+                    out = ['still-inside']
+                except StopIteration as stop:
+                    out = out_of(env, stop.value)
+        outs.append({'evs': env.J[mark:], 'out': out})
+    for t in tasks:
+        t.close()
+    return {'ops': outs}
+
+
+async def use_task_async(env, g, a, box):
+    r = None
+    try:
+        try:
+            cm, pos, kw = env.prepare(g, a)
+            for _ in (0,):
+                async with cm(*pos, **kw) as v:
+                    env.J.append(['bind', g['tag'], VAL0 + g['tag'] if v is env.val(g['tag']) else -1])
+                    box['vid'] = env.J[-1][2]
+                    box['inside'] = True
+                    box['reached'].set()
+                    await box['go'].wait()
+                    box['inside'] = False
+                    b = block_end(env, box['fin'])
+                    if isinstance(b, tuple):
+                        raise b[1]
+                    if b == 'ret':
+                        return LEFT
+                    if b == 'brk':
+                        r = LEFT
+                        break
+                    r = NORMAL
+        except RuntimeError as e:
+            if 'harness label' in str(e) or 'no use of the harness' in str(e):
+                box['internal'] = e
+            return ('exc', e)
+        except BaseException as e:
+            return ('exc', e)
+        return NORMAL if r is None else r
+    finally:
+        box['inside'] = False
+        box['reached'].set()
+
+
+async def run_hist_async(c, classes, deco):
+    """every use is an asyncio task; the driver lets exactly one task run at a time (all others wait for their own event), so the
+    interleaving is the one the history names"""
+    import asyncio
+    env = Env(c, classes, deco)
+    tasks, boxes, outs = [], [], []
+    for op in c['ops']:
+        mark = len(env.J)
+        if op[0] == 'enter':
+            box = {'inside': False, 'reached': asyncio.Event(), 'go': asyncio.Event()}
+            t = asyncio.ensure_future(use_task_async(env, op[1], op[2], box))
+            tasks.append(t); boxes.append(box)
+            await box['reached'].wait()
+            if box['inside']:
+                out = ['entered', box['vid']]
+            else:
+                out = out_of(env, await t)
+        else:
+            i = op[1]
+            if i >= len(tasks) or not boxes[i]['inside']:
+                out = ['ignored']
+            else:
+                boxes[i]['fin'] = op[2]
+                boxes[i]['go'].set()
+                out = out_of(env, await tasks[i])
+        for b in boxes:
+            if 'internal' in b:
+                raise b['internal']
+        outs.append({'evs': env.J[mark:], 'out': out})
+    for t, b in zip(tasks, boxes):       # never reached by generated histories: uses that are still inside their block
+        if not t.done():
+            b['fin'] = ['normal']
+            b['go'].set()
+            await t
+    return {'ops': outs}
 
 
 def fn_variant(label):
@@ -474,13 +974,14 @@ def run_impl(cases):
         if c['kind'] == 'deco':
             out[i] = run_deco(c, decos)
         elif c['mode'] == 'sync':
-            out[i] = run_prog_sync(c, classes, decos['sync'])
+            out[i] = (run_hist_sync if c['kind'] == 'hist' else run_prog_sync)(c, classes, decos['sync'])
         else:
             async_idx.append(i)
 
     async def main():
         for i in async_idx:
-            out[i] = await run_prog_async(cases[i]['c'], classes, decos['async'])
+            c = cases[i]['c']
+            out[i] = await (run_hist_async if c['kind'] == 'hist' else run_prog_async)(c, classes, decos['async'])
     if async_idx:
         with warnings.catch_warnings():
             warnings.simplefilter('ignore')
@@ -490,14 +991,51 @@ def run_impl(cases):
 
 # ------------------------------------------------------------------------------------------------ verdict
 
-def canon_model(o):
-    if o is None:
-        return None
-    f = list(o['final'])
+def canon_final(f):
+    f = list(f)
     if f[0] == 'raised':
         f[2] = 'rt' if f[2] >= CONV else f[2]
         f[3] = None if f[3] is None else ('rt' if f[3] >= CONV else f[3])
-    return {'journal': o['journal'], 'final': f}
+    return f
+
+
+def canon_model(o):
+    if o is None:
+        return None
+    return {'journal': o['journal'], 'final': canon_final(o['final'])}
+
+
+def canon_ops(o):
+    if o is None:
+        return None
+    return [{'evs': r['evs'], 'out': canon_final(r['out'])} for r in o]
+
+
+def judge_hist(case, impl, model):
+    """a history over one manager: compared operation by operation"""
+    x = case.get('x', {})
+    tag = x.get('tag', 'hist')
+    m, s, got = canon_ops(model['model']), canon_ops(model['spec']), impl['ops']
+    corr = got == m
+    why = ''
+    if not corr:
+        k = next((i for i, (a, b) in enumerate(zip(got, m)) if a != b), min(len(got), len(m)))
+        why = f'operation {k} ({case["c"]["ops"][k][0] if k < len(case["c"]["ops"]) else "?"}): impl {json.dumps(got[k] if k < len(got) else None)} vs model {json.dumps(m[k] if k < len(m) else None)}'
+    pfail = finding = None
+    if s is not None:
+        for k, (a, b) in enumerate(zip(got, s)):
+            op = case['c']['ops'][k]
+            what = f"enter of use {sum(1 for o in case['c']['ops'][:k] if o[0] == 'enter')}" if op[0] == 'enter' else f'exit of use {op[1]}'
+            if a['evs'] != b['evs']:
+                pfail = (f"operation {k} ({what}): journal {a['evs']} differs from the try/finally semantics of that use {b['evs']} "
+                         f"(each use of a manager runs its own setup / cleanup exactly once, whatever other live uses of the same manager do)")
+            elif a['out'] != b['out']:
+                pfail = f"operation {k} ({what}): the caller saw {a['out']} instead of {b['out']}"
+                if not model['quirkFree'] and corr and a['out'][0] == 'raised' and a['out'][1] in ('stopIteration', 'stopAsyncIteration'):
+                    finding = FINDING_QUIRK
+            if pfail:
+                break
+    return {'corr': corr, 'pfail': pfail, 'finding': finding, 'nontrivial': True, 'tag': tag, 'why': why}
 
 
 def judge(case, impl, model):
@@ -513,6 +1051,8 @@ def judge(case, impl, model):
         elif impl['deco'][0] != 'rejected':
             pfail = f"decorating a {c['fn']} function ({c['variant']}) with the {c['mode']} decorator was not rejected at decoration time"
         return {'corr': corr, 'pfail': pfail, 'nontrivial': True, 'tag': tag, 'why': '' if corr else f'decoration outcome {impl["deco"]} vs model {m}'}
+    if c['kind'] == 'hist':
+        return judge_hist(case, impl, model)
     m = canon_model(model['model'])
     s = canon_model(model['spec'])
     got = {'journal': impl['journal'], 'final': impl['final']}
